@@ -23,6 +23,8 @@ pub struct Scenario {
   pub cb_probes: u32,
   pub check_subscribed: bool,
   pub via_map: bool,
+  /// the same Observable value is subscribed a second time once the first subscription has run out (C11)
+  pub resubscribe: bool,
 }
 
 pub fn scenario_from_json(w: &Json) -> Option<Scenario> {
@@ -71,13 +73,15 @@ pub fn scenario_from_json(w: &Json) -> Option<Scenario> {
     take: w.i("take"),
     cb_probes: w.i("cb_probes").clamp(0, 3) as u32,
     check_subscribed: w.b("check_subscribed"),
-    via_map: w.b("via_map"),
+    resubscribe: w.get("resubscribe").is_some() && w.b("resubscribe"), via_map: w.b("via_map"),
   })
 }
 
 pub struct Ran {
   pub res: rt::RunResult,
   pub rec: Recorder,
+  /// the recorder of the second subscription of the same value, if there was one
+  pub rec_b: Option<Recorder>,
   pub logs: Vec<Arc<Mutex<SrcLog>>>,
   /// flat_map inner sources: (outer item, log)
   pub inner_logs: Arc<Mutex<Vec<(i64, Arc<Mutex<SrcLog>>)>>>,
@@ -93,6 +97,8 @@ pub fn run_scenario(sc: &Scenario, cfg: RunCfg) -> Ran {
   let logs: Vec<Arc<Mutex<SrcLog>>> = sc.scripts.iter().map(|_| Arc::new(Mutex::new(SrcLog::default()))).collect();
   let inner_logs: Arc<Mutex<Vec<(i64, Arc<Mutex<SrcLog>>)>>> = Arc::new(Mutex::new(Vec::new()));
   let (rec2, logs2, il2) = (rec.clone(), logs.clone(), inner_logs.clone());
+  let rec_b = if sc.resubscribe { Some(Recorder::with_probes(sc.cb_probes)) } else { None };
+  let rec_b2 = rec_b.clone();
   let (op, scripts, take, check, via_map) = (sc.op.clone(), sc.scripts.clone(), sc.take, sc.check_subscribed, sc.via_map);
   let res = rt::run(cfg, move || {
     let handles = Arc::new(Mutex::new(Vec::new()));
@@ -140,9 +146,23 @@ pub fn run_scenario(sc: &Scenario, cfg: RunCfg) -> Ran {
         let _ = h.join();
       }
     }
+    if let Some(rb) = &rec_b2 {
+      // every input is cold (a thread per subscription): the second subscription gets its own producers
+      rt::quiesce();
+      let _sub_b = rb.subscribe(&o);
+      loop {
+        let hs: Vec<_> = std::mem::take(&mut *handles.lock().unwrap());
+        if hs.is_empty() {
+          break;
+        }
+        for h in hs {
+          let _ = h.join();
+        }
+      }
+    }
     rt::quiesce();
   });
-  Ran { res, rec, logs, inner_logs }
+  Ran { res, rec, rec_b, logs, inner_logs }
 }
 
 pub fn history_of(ran: &Ran) -> Vec<String> {
@@ -159,6 +179,11 @@ pub fn history_of(ran: &Ran) -> Vec<String> {
   }
   for r in ran.rec.events() {
     h.push(format!("{:>4}..{:<4} t{} subscriber gets {}", r.seq_in, r.seq_out, r.task, r.ev.show()));
+  }
+  if let Some(b) = &ran.rec_b {
+    for r in b.events() {
+      h.push(format!("{:>4}..{:<4} t{} second subscriber gets {}", r.seq_in, r.seq_out, r.task, r.ev.show()));
+    }
   }
   h.sort();
   h
@@ -494,7 +519,7 @@ impl Family for C19Subjects {
     }
     history.sort();
     for (i, r) in recs.iter().enumerate() {
-      let ran = Ran { res: res.clone(), rec: r.clone(), logs: vec![log.clone()], inner_logs: Arc::new(Mutex::new(Vec::new())) };
+      let ran = Ran { res: res.clone(), rec: r.clone(), rec_b: None, logs: vec![log.clone()], inner_logs: Arc::new(Mutex::new(Vec::new())) };
       let b = if obs_kinds[i] == "map" { format!("{}+map", blame) } else { blame.to_string() };
       violations.extend(c19_oracle(&ran, &b));
     }
@@ -538,6 +563,8 @@ impl Family for C11 {
       ("cb_probes", Json::Int(rng.below(3) as i64)),
       ("check_subscribed", Json::Bool(rng.below(2) == 0)),
       ("via_map", Json::Bool(rng.below(4) == 0)),
+      // the same value subscribed once more after the first subscription has run out
+      ("resubscribe", Json::Bool(rng.below(5) == 0)),
     ])
   }
   fn exec(&self, w: &Json, cfg: RunCfg) -> RunOut {
@@ -562,7 +589,16 @@ impl Family for C11 {
         v.push(o);
       }
     }
-    if v.is_empty() {
+    let mut judged: Vec<(&str, Recorder)> = vec![("", ran.rec.clone())];
+    if let Some(b) = &ran.rec_b {
+      judged.push(("second subscription of the same value: ", b.clone()));
+    }
+    for (label, rec_k) in judged {
+      if !v.is_empty() {
+        break;
+      }
+      let evs = rec_k.events();
+      let show = format!("{}{}", label, evs.iter().map(|r| r.ev.show()).collect::<Vec<_>>().join(" "));
       let n_complete = evs.iter().filter(|r| r.ev == Ev::Complete).count();
       let n_error = evs.iter().filter(|r| matches!(r.ev, Ev::Error(_))).count();
       if n_complete > 1 || n_error > 1 || (n_complete + n_error) > 1 {
